@@ -716,6 +716,8 @@ class RegionLifter:
                 return self.call_function(m, args, kw, self_obj=recv)
             if f.attr == "sum":
                 return self.total(recv, kw.get("axis", args[0] if args else None))
+            if f.attr == "mean" and isinstance(recv, Vec) and len(recv):
+                return self.total(recv) / const(len(recv))
             if f.attr == "copy":
                 return self.copy(recv)
             if f.attr == "astype":
@@ -752,6 +754,11 @@ class RegionLifter:
             return self.ew(fl, args[0])
         if name == "np.log1p":
             return self.ew(lambda x: fn("log", const(1) + R(x)), args[0])
+        if name == "np.mean":
+            a = args[0]
+            if isinstance(a, (Vec, list, tuple)) and not isinstance(a, Mat) and len(a):
+                return self.total(a) / const(len(a))
+            raise Unsupported("mean of a non-vector")
         if name in ("np.sum", "sum"):
             return self.total(args[0], kw.get("axis", args[1] if len(args) > 1 else None))
         if name == "len":
